@@ -34,11 +34,24 @@ class Translator3(g2.Translator2):
             if t[2][0] == "body" and t[2][1]:
                 raise NotInLanguage("top-level binding with a body")
         self.gment = {}
+        # attribute sets (deliverable c): entries of the program behind the templates and the two built-in rules; a name
+        # stands for its definitions in document order (one module: equal import precedence, the later one wins)
+        ntmpl = len([t for t in sheet["tops"] if t[0] == "template"])
+        self.asets = [t for t in sheet["tops"] if t[0] == "attribute-set"]
+        self.aset_ids = {}
+        for j, t in enumerate(self.asets):
+            self.aset_ids.setdefault(t[1], []).append(ntmpl + 2 + j)
         self.ext = dict(ext)
         for n in self.ext:
             if n not in self.gnames or [t for t in self.gtops if t[1] == n][0][0] != "param":
                 raise NotInLanguage("external value for something that is not a top-level param")
-        xsltcore.Translator.__init__(self, {"imports": [], "tops": [t for t in sheet["tops"] if t[0] not in ("variable", "param")]})
+        xsltcore.Translator.__init__(self, {"imports": [], "tops": [t for t in sheet["tops"] if t[0] not in ("variable", "param", "attribute-set")]})
+        for kind, nme, uses, attrs in self.asets:
+            out = ["AS"] + self.use_ids(uses) + [str(len(attrs))]
+            for an, body in attrs:
+                self.attr_parts(an, body, out)
+            self.tokens += out
+        self.tokens[0] = str(int(self.tokens[0]) + len(self.asets))
         g = ["G", str(len(self.gtops))]
         for kind, nme, vd in self.gtops:
             g += [str(self.name(nme)), "1" if kind == "param" else "0"]
@@ -55,6 +68,47 @@ class Translator3(g2.Translator2):
         for nme, s in self.ext.items():
             g += [str(self.name(nme)), "A%s/%s" % (enc("s:" + s), enc(s))]
         self.gtokens = g
+
+    def use_ids(self, names):
+        ids = []
+        for n in names:
+            if n not in self.aset_ids:
+                raise NotInLanguage("no such attribute-set")
+            ids += self.aset_ids[n]
+        return [str(len(ids))] + [str(i) for i in ids]
+
+    def attr_parts(self, an, body, out):
+        """xsl:attribute with a literal name whose content is literal text / xsl:value-of: name + value template"""
+        if len(an) != 1 or not isinstance(an[0], str):
+            raise NotInLanguage("computed attribute name")
+        parts = []
+        for b in body:
+            if b[0] in ("text", "lit"):
+                parts.append(b[1])
+            elif b[0] == "value-of":
+                parts.append(("x", b[1]))
+            else:
+                raise NotInLanguage("xsl:attribute content")
+        out.append(self.qn(an[0]))
+        self.avt(parts, out)
+
+    def instr(self, i, out):
+        k = i[0]
+        if k == "lre" and len(i) > 4 and i[4]:
+            self.ninstr += 1
+            out += ["LU", self.qn(i[1])] + self.use_ids(i[4]) + [str(len(i[2]))]
+            for a, parts in i[2]:
+                out.append(self.qn(a))
+                self.avt(parts, out)
+            self.body(i[3], out)
+        elif k == "element" and len(i) > 3 and i[3]:
+            self.ninstr += 1
+            out.append("EU")
+            self.avt(i[1], out)
+            out += self.use_ids(i[3])
+            self.body(i[2], out)
+        else:
+            g2.Translator2.instr(self, i, out)
 
     def split(self, vs):
         loc = [v for v in vs if v not in self.gnames]
@@ -172,6 +226,16 @@ class CoreGen3(g2.CoreGen2):
         g2.CoreGen2.__init__(self, r, count)
         self.genv = {}
 
+    def instr(self, cx, env, d):
+        ins = g2.CoreGen2.instr(self, cx, env, d)
+        r = self.r
+        if getattr(self, "setnames", None) and ins[0] in ("lre", "element") and r.random() < 0.4:
+            use = [r.choice(self.setnames) for _ in range(r.choice([1, 1, 2]))]
+            if ins[0] == "lre":
+                return ("lre", ins[1], ins[2], ins[3], use)
+            return ("element", ins[1], ins[2], use)
+        return ins
+
     def body(self, cx, env, d, in_elem=False):
         for n, t in self.genv.items():
             env.setdefault(n, t)
@@ -198,9 +262,23 @@ class CoreGen3(g2.CoreGen2):
         # definition is the empty string
         types = ["anyparam" if k == "param" else ("str" if e else t) for k, t, e in zip(kinds, defs, empty)]
         self.genv = dict(zip(names, types))
+        # attribute sets: s0.. ; a set may use earlier ones; sometimes two definitions of one name (merged: both apply, the
+        # later one last); only top-level bindings are visible in them
+        self.set_tops, self.setnames = [], []
+        for j in range(r.choice([0, 0, 1, 2, 3])):
+            nm = "s%d" % (j if r.random() < 0.8 or j == 0 else j - 1)
+            uses = r.sample(sorted(set(self.setnames) - {nm}), r.choice([0, 0, 1])) if set(self.setnames) - {nm} else []
+            attrs = []
+            for _ in range(r.choice([1, 1, 2, 3])):
+                attrs.append(([r.choice(["k", "m", "x", "w", "sa"])], self.text_body(dict(self.genv))))
+            self.set_tops.append(("attribute-set", nm, uses, attrs))
+            self.setnames.append(nm)
         sheet = g2.CoreGen2.sheet(self)
         if not names:
-            return sheet, ()
+            alltops = list(sheet["tops"])
+            for t in self.set_tops:
+                alltops.insert(r.randrange(len(alltops) + 1), t)
+            return {"imports": [], "tops": alltops}, ()
         # definitions: a random permutation decides who may mention whom (acyclic), so that declarations mention later
         # bindings as often as earlier ones
         rank = list(range(ng))
@@ -229,7 +307,7 @@ class CoreGen3(g2.CoreGen2):
             if kinds[i] == "param" and r.random() < 0.5:
                 ext.append((n, r.choice(["E", "ext v", "", "7"])))
         alltops = list(sheet["tops"])
-        for t in tops:
+        for t in tops + self.set_tops:
             alltops.insert(r.randrange(len(alltops) + 1), t)
         return {"imports": [], "tops": alltops}, tuple(ext)
 
@@ -242,6 +320,26 @@ def gen_case(r, count=None):
 
 def features(sheet):
     out = set(g2.features({"imports": [], "tops": [t for t in sheet["tops"] if t[0] == "template"]}))
+    sets = [t for t in sheet["tops"] if t[0] == "attribute-set"]
+    if sets:
+        out.add("attribute-set:%d" % min(len(sets), 3))
+        if len(set(t[1] for t in sets)) < len(sets):
+            out.add("attribute-set:same-name-merged")
+        if any(t[2] for t in sets):
+            out.add("attribute-set:uses-set")
+
+        def walk(b):
+            for i in b:
+                if i[0] == "lre" and len(i) > 4 and i[4]:
+                    out.add("attribute-set:on-lre" + ("+own-attributes" if i[2] else ""))
+                if i[0] == "element" and len(i) > 3 and i[3]:
+                    out.add("attribute-set:on-xsl:element")
+                for x in i[1:]:
+                    if isinstance(x, list) and x and isinstance(x[0], tuple):
+                        walk([y for y in x if isinstance(y, tuple) and y and isinstance(y[0], str)])
+        for t in sheet["tops"]:
+            if t[0] == "template":
+                walk(t[1].get("body", []))
     gn = [t[1] for t in sheet["tops"] if t[0] in ("variable", "param")]
     if gn:
         out.add("toplevel:%d" % min(len(gn), 3))
